@@ -24,7 +24,8 @@ RULE = (
     "every path before the Lock is built. R5 (locked release first) in every caller of gen_locks (new, update) self.lock_table is not "
     "cleared, taken or modified before gen_locks runs: resolve_version_from_lockfile reads it. R6 (table sorted) every Lockfile function "
     "that inserts into self.lock_table reaches its return only through sort_table, whose comparator is cmp(b.source, a.source): the first "
-    "matching lock resolve_version_from_lockfile returns is the highest locked release."
+    "matching lock resolve_version_from_lockfile returns is the highest locked release. R7 (lock identity) every value Lock::uuid returns "
+    "is computed by Lockfile::gen_uuid with the lock's own properties."
 )
 
 CRATES = ["veryl_metadata", "veryl_path"]
@@ -308,6 +309,7 @@ def run(world, tier, info, only=None):
               "self.lock_table is modified (%s) before gen_locks runs: resolve_version_from_lockfile then finds no locked release and every "
               "dependency jumps to its latest matching release" % early[:2])
     _table_sorted_after_fill(ck, w)
+    _lock_identity(ck, w)
     return ck.finish(info)
 
 
@@ -396,3 +398,41 @@ def _rl(g, op):
         else:
             return l
     return l
+
+
+def _lock_identity(ck, w):
+    """R7: two locks are the same dependency only if url, path, revision and the property overrides agree; gen_locks and the lock table
+    tell locks apart by Lock::uuid(). Every value Lock::uuid returns must be the result of Lockfile::gen_uuid called with the lock's own
+    `properties` (a stored uuid that was computed without them makes two differently configured uses of one release one lock)."""
+    import flow
+    P = LF + "Lock::uuid"
+    GU = LF + "Lockfile::gen_uuid"
+    if P not in w.fns:
+        ck.missing("R7", P)
+        return
+    sm = w.fns[P]
+    g = Fn(w.mir(P))
+    gens = g.calls("^" + re.escape(GU) + "$")
+    n = 0
+    for bi, t in gens:
+        n += 1
+        paths = [flow.access_path(g, a) for a in t["args"]]
+        ok = len(paths) >= 4 and paths[3][0] == ("arg", 1) and paths[3][1] == ("properties",)
+        ck.ob("R7", "uuid/with-own-properties@%d" % n, ok, site(sm, t["l"]),
+              "gen_uuid receives self.properties" if ok else "gen_uuid is called without the lock's own properties (%s)" % (paths[3:4],))
+    # every definition of the return place is a gen_uuid result
+    other = []
+    for bi, b in enumerate(g.blocks):
+        if b.get("cu"):
+            continue
+        for st in b["s"]:
+            if st[0] == "=" and st[1][0] == 0:
+                other.append(st[3])
+        t = b["t"]
+        if t["t"] == "call" and t.get("dst") and t["dst"][0] == 0 and (t.get("callee") or "") != GU:
+            other.append(t.get("l"))
+    ck.ob("R7", "uuid/only-computed", not other and bool(gens), site(sm, other[0] if other else None),
+          "every uuid returned is computed by gen_uuid from url, path, revision and properties" if not other and gens else
+          "Lock::uuid returns a value that is not computed by gen_uuid here (line %s): a stored uuid does not cover the property overrides, so two "
+          "locks of one release with different properties get the same identity" % other)
+    ck.floor("R7", "gen_uuid calls in Lock::uuid", n, 2)
